@@ -16,17 +16,23 @@ import (
 // C07: multi-source output is a whole-line interleaving with correct attribution.
 
 type c07Params struct {
-	Servers  int
-	Files    []int // line counts of the files (same files on every server)
-	Glob     bool  // same basename in different directories through one glob
-	LongLine int   // if >0, line l of file 0 has this many bytes + 10000*(l-1)
+	Servers int
+	Files   []int // line counts of the files (same files on every server)
+	Glob    bool  // same basename in different directories through one glob
+	// Unclean: the glob is spelled non-canonically ("//", "/./", "x/../"), as concatenating a root and a pattern does
+	Unclean  int
+	LongLine int // if >0, line l of file 0 has this many bytes + 10000*(l-1)
 	Kind     string
 	// NoFinalNL: the last line of every odd-numbered file has no trailing newline
 	NoFinalNL bool
 }
 
 func (p c07Params) String() string {
-	return fmt.Sprintf("%s servers=%d files=%v glob=%v longline=%d nofinalnl=%v", p.Kind, p.Servers, p.Files, p.Glob, p.LongLine, p.NoFinalNL)
+	s := fmt.Sprintf("%s servers=%d files=%v glob=%v longline=%d nofinalnl=%v", p.Kind, p.Servers, p.Files, p.Glob, p.LongLine, p.NoFinalNL)
+	if p.Unclean > 0 {
+		s += fmt.Sprintf(" unclean-glob-spelling=%d", p.Unclean)
+	}
+	return s
 }
 
 func init() {
@@ -71,6 +77,14 @@ func c07Setup(p c07Params) (what string, ids []string) {
 		}
 	}
 	if p.Glob {
+		switch p.Unclean {
+		case 1:
+			return Scratch() + "/" + dir + "//*/app.log", ids
+		case 2:
+			return Scratch() + "/" + dir + "/./*/app.log", ids
+		case 3:
+			return Scratch() + "/" + dir + "/d0/../*/app.log", ids
+		}
 		return Scratch() + "/" + dir + "/*/app.log", ids
 	}
 	return strings.Join(paths, ","), ids
@@ -254,6 +268,9 @@ func c07ParamSets(tier string) (ps []c07Params, d int) {
 			{Kind: "cat", Servers: 2, Files: []int{2}},
 			{Kind: "cat", Servers: 2, Files: []int{1, 1}, Glob: true},
 			{Kind: "cat", Servers: 1, Files: []int{2, 2}, Glob: true},
+			{Kind: "cat", Servers: 1, Files: []int{1, 2}, Glob: true, Unclean: 1},
+			{Kind: "cat", Servers: 1, Files: []int{2, 1}, Glob: true, Unclean: 2},
+			{Kind: "cat", Servers: 2, Files: []int{1, 1}, Glob: true, Unclean: 3},
 			{Kind: "cat", Servers: 2, Files: []int{2}, LongLine: 40000},
 			{Kind: "cat", Servers: 1, Files: []int{2, 2, 2}, Glob: true, NoFinalNL: true},
 		}, 1
@@ -281,7 +298,7 @@ func init() {
 		ID:    "C07",
 		Level: "model_checking",
 		Rule: "stateless exploration of all schedules within a deviation bound (quick 1, thorough 2) of a non-plain, no-colour dcat session over 1-3 in-process servers (each its own Serverless connector, ServerHandler and host name) " +
-			"x 1-2 files (distinct basenames, or the same basename in different directories through one glob) x 1-2 lines, plus lines of 40000/70000 bytes that span several transport reads; the stdout logger's lock operations are branching points; " +
+			"x 1-2 files (distinct basenames, or the same basename in different directories through one glob, also spelled with '//', '/./' and 'x/../') x 1-2 lines, plus lines of 40000/70000 bytes that span several transport reads; the stdout logger's lock operations are branching points; " +
 			"oracle: every stdout line is exactly one REMOTE|host|perc|n|id|text record whose text is line n of source (host,id), per source n = 1,2,.. without gap or repeat, every line present; plus the real TailFile reader with a source faster than its consumer (queue capacity 1/4/100, histories of up to 450 lines, lines dropped at a full queue): every delivered line carries its own running number; distinct = distinct (scenario, outcome) pairs",
 		Assumptions: []string{
 			"code between two synchronisation operations is atomic (data-race freedom; checked by the free-running -race pass)",
